@@ -20,18 +20,10 @@ NOT_DECIDED = ("what happens to the tasker that itself raised or was interrupted
 
 
 def _is_running_test(t):
-    """status == RUNNING or status == STARTED (any order, self.status or local)"""
-    if isinstance(t, ast.BoolOp) and isinstance(t.op, ast.Or) and len(t.values) == 2:
-        consts = set()
-        for v in t.values:
-            if not (isinstance(v, ast.Compare) and len(v.ops) == 1 and isinstance(v.ops[0], ast.Eq)):
-                return False
-            names = {dotted(v.left), dotted(v.comparators[0])}
-            if not (names & {"status", "self.status"}):
-                return False
-            consts |= names - {"status", "self.status"}
-        return consts == {"RUNNING", "STARTED"}
-    return False
+    """status in (RUNNING, STARTED) -- any spelling (normalised by sa/normalize N1), self.status or local"""
+    from ..rules import member_test
+    m = member_test(t)
+    return bool(m) and m[0] in ("status", "self.status") and m[1] == {"RUNNING", "STARTED"}
 
 
 def check(ctx):
